@@ -151,7 +151,8 @@ def stub_source(spec):
             f'{name} = {name}_K.make\n')
   if kind == 'part':
     pre = spec.get('pre', {})
-    pos = ', '.join(repr(v) for v in pre.get('pos', []))
+    # 'pos_src': raw source of pre-bound positional values (e.g. 'Hostile()')
+    pos = ', '.join([repr(v) for v in pre.get('pos', [])] + list(pre.get('pos_src', [])))
     kws = ', '.join(f'{k}={v!r}' for k, v in pre.get('kw', {}).items())
     bound = ', '.join(x for x in (pos, kws) if x)
     return (f'def {name}_inner({sig_source(params)}):\n'
